@@ -1,7 +1,8 @@
 (* C06 — executable model M of lists as Go slices: a heap of backing arrays, a slice is
    (array, offset, length), its capacity is what is left of the array.  Operations follow
-   pkg/cl/{cons,cdr,nthcdr,last,butlast,subseq,copy-list,reverse,append,push,pop,nreverse,nconc,sort,
-   car(Place),nth(Place)}.go and pkg/gi/add.go for proper lists of integers.  Go's append writes in
+   pkg/cl/{cons,listx,cdr,nthcdr,member,last,butlast,subseq,copy-list,reverse,append,push,pop,nreverse,
+   nconc,sort,delete,mapcar,rplaca,rplacd,car(Place),nth(Place),elt(Place)}.go and pkg/gi/add.go for
+   proper lists of integers, with repo_fixes/C06-1..4 applied.  Go's append writes in
    place when the capacity allows and otherwise allocates an array whose capacity is decided by the
    runtime: that capacity is an input of the operation (observed by the harness), never assumed. *)
 From Coq Require Export List Bool Arith ZArith Lia.
@@ -43,8 +44,10 @@ Definition alloc (h : heap) (xs : list Z) (cap : nat) : heap * slice :=
 Inductive op :=
 | OList (xs : list Z) (dst : var)                (* (setq dst (list x...)) *)
 | OCons (x : Z) (src dst : var)
+| OListStar (xs : list Z) (src dst : var)        (* (setq dst (list* x... src)) *)
 | OCdr (src dst : var)
 | ONthcdr (n : nat) (src dst : var)
+| OMember (x : Z) (src dst : var)                (* (setq dst (member x src)) *)
 | OLast (src dst : var)
 | OButlast (src dst : var)
 | OSubseq (s e : nat) (src dst : var)
@@ -56,33 +59,45 @@ Inductive op :=
 | OPop (v : var)
 | OSetcar (v : var) (x : Z)
 | OSetnth (v : var) (i : nat) (x : Z)
+| OSetelt (v : var) (i : nat) (x : Z)            (* (setf (elt v i) x) *)
+| ORplaca (v : var) (x : Z) (dst : var)          (* (setq dst (rplaca v x)) *)
+| ORplacd (v b dst : var)                        (* (setq dst (rplacd v b)) *)
 | ONreverse (src dst : var)
 | ONconc (a b dst : var)
 | OSort (src dst : var)
-| ORemove (x : Z) (src dst : var).            (* remove and delete build a new list by appending *)
+| ORemove (x : Z) (src dst : var)                (* remove and delete build a new list by appending *)
+| OMapcar (k : Z) (src dst : var).               (* (setq dst (mapcar (lambda (el) (+ el k)) src)) *)
 
 (* insertion sort: the result of sorting integers by < is unique *)
 Fixpoint insert (x : Z) (l : list Z) : list Z :=
   match l with [] => [x] | y :: l' => if (x <=? y)%Z then x :: l else y :: insert x l' end.
 Definition isort (l : list Z) : list Z := fold_right insert [] l.
+(* position of the first element equal to x *)
+Fixpoint index_of (x : Z) (l : list Z) : option nat :=
+  match l with
+  | [] => None
+  | y :: l' => if Z.eqb x y then Some 0 else match index_of x l' with Some i => Some (S i) | None => None end
+  end.
 
 (* overwrite the window of s with xs (|xs| = s_len s) *)
 Fixpoint write_all (h : heap) (a : aid) (i : nat) (xs : list Z) : heap :=
   match xs with [] => h | x :: xs' => write_all (write h a i x) a (S i) xs' end.
 
+Definition vcontents (st : state) (w : var) : list Z := contents (hp st) (getv st w).
+(* the result is a newly allocated array holding xs (nil when xs is empty) *)
+Definition fresh (st : state) (dst : var) (xs : list Z) (cap : nat) : state :=
+  let '(h', s) := alloc (hp st) xs cap in setv {| hp := h'; vars := vars st |} dst (Some s).
+
 (* step: cap is the capacity Go chose if the operation allocated a visible array *)
 Definition step (st : state) (o : op) (cap : nat) : state :=
   let h := hp st in
   match o with
-  | OList xs dst =>
-      match xs with
-      | [] => setv st dst None
-      | _ => let '(h', s) := alloc h xs cap in setv {| hp := h'; vars := vars st |} dst (Some s)
-      end
-  | OCons x src dst =>
-      let '(h', s) := alloc h (x :: contents h (getv st src)) cap in setv {| hp := h'; vars := vars st |} dst (Some s)
-  | OPush x v =>
-      let '(h', s) := alloc h (x :: contents h (getv st v)) cap in setv {| hp := h'; vars := vars st |} v (Some s)
+  | OList xs dst => fresh st dst xs cap
+  | OCons x src dst => fresh st dst (x :: vcontents st src) cap              (* append(List{x}, l...) *)
+  | OPush x v => fresh st v (x :: vcontents st v) cap
+  | OListStar xs src dst =>
+      (* one argument: the argument itself; otherwise make(n+1) + copy, the last argument appended *)
+      match xs with [] => setv st dst (getv st src) | _ => fresh st dst (xs ++ vcontents st src) cap end
   | OCdr src dst =>
       match getv st src with
       | None => setv st dst None
@@ -95,6 +110,14 @@ Definition step (st : state) (o : op) (cap : nat) : state :=
       | Some s => if s_len s <=? n then setv st dst None
                   else setv st dst (Some {| s_arr := s_arr s; s_off := s_off s + n; s_len := s_len s - n |})
       end
+  | OMember x src dst =>                                                       (* list[i:] *)
+      match getv st src with
+      | None => setv st dst None
+      | Some s => match index_of x (contents h (Some s)) with
+                  | None => setv st dst None
+                  | Some i => setv st dst (Some {| s_arr := s_arr s; s_off := s_off s + i; s_len := s_len s - i |})
+                  end
+      end
   | OPop v =>
       match getv st v with
       | None => st
@@ -105,58 +128,63 @@ Definition step (st : state) (o : op) (cap : nat) : state :=
       match getv st src with
       | None => setv st dst None
       | Some s => if s_len s <=? 1 then setv st dst (Some s)
-                  else let '(h', r) := alloc h (skipn (s_len s - 1) (contents h (Some s))) cap in
-                       setv {| hp := h'; vars := vars st |} dst (Some r)
+                  else fresh st dst (skipn (s_len s - 1) (contents h (Some s))) cap
       end
   | OButlast src dst =>
       match getv st src with
       | None => setv st dst None
       | Some s => if s_len s <=? 1 then setv st dst None
-                  else let '(h', r) := alloc h (firstn (s_len s - 1) (contents h (Some s))) cap in
-                       setv {| hp := h'; vars := vars st |} dst (Some r)
+                  else fresh st dst (firstn (s_len s - 1) (contents h (Some s))) cap
       end
-  | OSubseq b e src dst =>
+  | OSubseq b e src dst =>                                                     (* make + copy (repo_fixes/C06-2) *)
       match getv st src with
-      | None => st
+      | None => st                                                             (* nil is not accepted: error *)
       | Some s => if (b <=? e) && (e <=? s_len s)
-                  then setv st dst (Some {| s_arr := s_arr s; s_off := s_off s + b; s_len := e - b |})
+                  then fresh st dst (firstn (e - b) (skipn b (contents h (Some s)))) cap
                   else st
       end
   | OCopy src dst =>
       match getv st src with
       | None => setv st dst None
-      | Some s => let '(h', r) := alloc h (contents h (Some s)) cap in setv {| hp := h'; vars := vars st |} dst (Some r)
+      | Some s => fresh st dst (contents h (Some s)) cap
       end
   | OReverse src dst =>
       match getv st src with
       | None => setv st dst None
       | Some s => if s_len s =? 0 then setv st dst (Some s)
-                  else let '(h', r) := alloc h (rev (contents h (Some s))) cap in setv {| hp := h'; vars := vars st |} dst (Some r)
+                  else fresh st dst (rev (contents h (Some s))) cap
       end
-  | OAppend a b dst =>
-      let ca := contents h (getv st a) in let cb := contents h (getv st b) in
-      match ca, cb with
-      | [], [] => setv st dst (match getv st a with Some s => Some s | None => getv st b end)
-      | _, _ => let '(h', r) := alloc h (ca ++ cb) cap in setv {| hp := h'; vars := vars st |} dst (Some r)
-      end
-  | OAdd src x dst =>
-      match getv st src with
-      | None => let '(h', r) := alloc h [x] cap in setv {| hp := h'; vars := vars st |} dst (Some r)
-      | Some s =>
-          if s_len s <? scap h s
-          then setv {| hp := write h (s_arr s) (s_off s + s_len s) x; vars := vars st |} dst
-                    (Some {| s_arr := s_arr s; s_off := s_off s; s_len := S (s_len s) |})
-          else let '(h', r) := alloc h (contents h (Some s) ++ [x]) cap in setv {| hp := h'; vars := vars st |} dst (Some r)
-      end
+  | OAppend a b dst => fresh st dst (vcontents st a ++ vcontents st b) cap     (* every argument is copied *)
+  | OAdd src x dst => fresh st dst (vcontents st src ++ [x]) cap               (* append(l[:len:len], x) (repo_fixes/C06-1) *)
   | OSetcar v x =>
       match getv st v with
       | Some s => if 0 <? s_len s then {| hp := write h (s_arr s) (s_off s) x; vars := vars st |} else st
       | None => st
       end
-  | OSetnth v i x =>
+  | OSetnth v i x | OSetelt v i x =>
       match getv st v with
       | Some s => if i <? s_len s then {| hp := write h (s_arr s) (s_off s + i) x; vars := vars st |} else st
       | None => st
+      end
+  | ORplaca v x dst =>                                                         (* list[0] = x; return list *)
+      match getv st v with
+      | Some s => if 0 <? s_len s then setv {| hp := write h (s_arr s) (s_off s) x; vars := vars st |} dst (Some s) else st
+      | None => st
+      end
+  | ORplacd v b dst =>
+      (* list = append(list[:1], b...): the new tail is written over the old elements when it fits into
+         the capacity, the lengths of the slices held by variables do not change.  A nil b would store
+         a dotted pair (outside the modelled domain; never generated): modelled as no change. *)
+      match getv st v, getv st b with
+      | Some s, Some t =>
+          if 0 <? s_len s then
+            let cb := contents h (Some t) in
+            if 1 + length cb <=? scap h s
+            then setv {| hp := write_all h (s_arr s) (S (s_off s)) cb; vars := vars st |} dst
+                      (Some {| s_arr := s_arr s; s_off := s_off s; s_len := 1 + length cb |})
+            else fresh st dst (firstn 1 (contents h (Some s)) ++ cb) cap
+          else st
+      | _, _ => st
       end
   | ONreverse src dst =>
       match getv st src with
@@ -168,23 +196,15 @@ Definition step (st : state) (o : op) (cap : nat) : state :=
       | None => setv st dst None
       | Some s => setv {| hp := write_all h (s_arr s) (s_off s) (isort (contents h (Some s))); vars := vars st |} dst (Some s)
       end
-  | ORemove x src dst =>
-      let '(h', r) := alloc h (filter (fun y => negb (Z.eqb x y)) (contents h (getv st src))) cap in
-      setv {| hp := h'; vars := vars st |} dst (Some r)
+  | ORemove x src dst => fresh st dst (filter (fun y => negb (Z.eqb x y)) (vcontents st src)) cap
+  | OMapcar k src dst => fresh st dst (map (fun y => (y + k)%Z) (vcontents st src)) cap     (* make(len) *)
   | ONconc a b dst =>
-      let cb := contents h (getv st b) in
-      match getv st a with
-      | None => setv st dst (match cb with [] => None | _ => getv st b end)
-      | Some s =>
-          if s_len s =? 0 then setv st dst (match cb with [] => None | _ => getv st b end)
-          else match cb with
-               | [] => setv st dst (Some s)
-               | _ => if s_len s + length cb <=? scap h s
-                      then setv {| hp := write_all h (s_arr s) (s_off s + s_len s) cb; vars := vars st |} dst
-                                (Some {| s_arr := s_arr s; s_off := s_off s; s_len := s_len s + length cb |})
-                      else let '(h', r) := alloc h (contents h (Some s) ++ cb) cap in
-                           setv {| hp := h'; vars := vars st |} dst (Some r)
-               end
+      (* an empty argument is skipped; otherwise append(a[:len:len], b...) (repo_fixes/C06-3) *)
+      match vcontents st a, vcontents st b with
+      | [], [] => setv st dst None
+      | [], _ => setv st dst (getv st b)
+      | _, [] => setv st dst (getv st a)
+      | ca, cb => fresh st dst (ca ++ cb) cap
       end
   end.
 
